@@ -195,6 +195,18 @@ def cross_graph_cases():
     def fgate(fb):
         return IR.route("G", ["x"], ["A", "B"], [[IR.NONE]], cache=True, fid="shared_fb", tname="FB", fallback=fb)
     out.append((IR.prog("top", [fgate("A"), na, nb]), IR.prog("top", [fgate("B"), na, nb]), [["x", "in.x"]], "shared-func/gate-different-fallback"))
+    # arguments of different TYPES with the same text form (the integer 1 and the string "1") are different arguments
+    a = IR.func("A", ["x"], ["p"], cache=True, fid="shared_scalar", tname="SC")
+    b = IR.func("A", ["y"], ["p"], cache=True, fid="shared_scalar", tname="SC", pmap=[["y", "x"]])
+    out.append((IR.prog("top", [a]), IR.prog("top", [b]), [["x", "1"], ["y", "~s1"]], "shared-func/int-and-str-arguments"))
+    g1 = IR.ifelse("G", ["x"], "A", "B", [["A"]], cache=True, fid="shared_scalar_gate", tname="SG", pure=True)
+    g2 = IR.ifelse("G", ["y"], "A", "B", [["A"]], cache=True, fid="shared_scalar_gate", tname="SG", pure=True, pmap=[["y", "x"]])
+    na2, nb2 = IR.func("A", ["k"], ["a"]), IR.func("B", ["k"], ["b"])
+    out.append((IR.prog("top", [g1, na2, nb2]), IR.prog("top", [g2, na2, nb2]), [["x", "1"], ["y", "~s1"], ["k", "in.k"]], "shared-func/int-and-str-gate-arguments"))
+    # ... and closures of one factory that capture different OBJECTS whose repr is the default one (with an address)
+    a = IR.func("A", ["x"], ["p"], cache=True, fid="clo_obj_1", tname="CLO1", closure=["cell", "~newobj"])
+    b = IR.func("A", ["x"], ["p"], cache=True, fid="clo_obj_2", tname="CLO2", closure=["cell", "~newobj"])
+    out.append((IR.prog("top", [a]), IR.prog("top", [b]), [["x", "in.x"]], "same-source/captured-object-differs"))
     # ONE function behind a function node and behind an interrupt (same output name): its None is an ordinary value of
     # the function node, but makes the interrupt pause -- a cached {p: None} must not resolve the interrupt
     a = IR.func("A", ["x"], ["p"], cache=True, fid="shared_kind", tname="ID", fn="id")
